@@ -4,9 +4,9 @@ package props
 
 import (
 	"encoding/json"
-	"errors"
 	"fmt"
 	"io"
+	"reflect"
 	"runtime"
 	"strings"
 	"sync"
@@ -66,9 +66,77 @@ var c08Kinds = map[int]string{0: "pipe", 1: "array", 2: "convert", 3: "copy-chil
 
 // ---- error values carried by items ----
 
+//
+// The model identifies the error value of an item by a number (Item.err ≠ 0) and treats every
+// such item as an ordinary ELEMENT of the stream: only the sentinel io.EOF itself, returned by
+// Recv, is the end of the stream.  The number also fixes which Go value carries it (so a case
+// is self-contained and replays with the same values):
+//
+//	id%3 == 0  opaque     *c08Error                                 errors.Is(e, io.EOF) == false
+//	id%3 == 1  wraps-eof  fmt.Errorf("c08 read %d: %w", id, io.EOF) e != io.EOF, errors.Is(e, io.EOF)
+//	id%3 == 2  is-eof     *c08EOFLike, whose Is(io.EOF) is true      e != io.EOF, errors.Is(e, io.EOF)
+//
+// A receive path that tests for the end of the stream with errors.Is instead of == takes the
+// last two for io.EOF.  What comes back from Recv is decoded by identity of the value (type
+// switch / registry of the values made), never by message text or by unwrapping.
+
 type c08Error struct{ id int }
 
 func (e *c08Error) Error() string { return fmt.Sprintf("c08-err-%d", e.id) }
+
+type c08EOFLike struct{ id int }
+
+func (e *c08EOFLike) Error() string        { return fmt.Sprintf("c08-eoflike-%d", e.id) }
+func (e *c08EOFLike) Is(target error) bool { return target == io.EOF }
+
+var c08ErrKinds = [3]string{"opaque", "wraps-eof", "is-eof"}
+
+func c08ErrKind(id int) string {
+	if id == 0 {
+		return "none"
+	}
+	return c08ErrKinds[id%3]
+}
+
+// c08ErrReg: the fmt.Errorf values made for one case, by identity.
+type c08ErrReg struct {
+	mu sync.Mutex
+	m  map[error]int
+}
+
+func (g *c08ErrReg) mk(id int) error {
+	switch id % 3 {
+	case 0:
+		return &c08Error{id: id}
+	case 2:
+		return &c08EOFLike{id: id}
+	}
+	e := fmt.Errorf("c08 read %d: %w", id, io.EOF)
+	g.mu.Lock()
+	if g.m == nil {
+		g.m = map[error]int{}
+	}
+	g.m[e] = id
+	g.mu.Unlock()
+	return e
+}
+
+// id of an error value that came out of a Recv (0, false: not a value this case made)
+func (g *c08ErrReg) id(err error) (int, bool) {
+	switch x := err.(type) {
+	case *c08Error:
+		return x.id, true
+	case *c08EOFLike:
+		return x.id, true
+	}
+	if t := reflect.TypeOf(err); t == nil || !t.Comparable() {
+		return 0, false
+	}
+	g.mu.Lock()
+	defer g.mu.Unlock()
+	id, ok := g.m[err]
+	return id, ok
+}
 
 // ---- the implementation side ----
 
@@ -77,6 +145,7 @@ type c08World struct {
 	writers map[int]*schema.StreamWriter[int]
 	wclosed map[int]bool
 	convN   int
+	errs    c08ErrReg
 }
 
 func c08NewWorld() *c08World {
@@ -98,7 +167,7 @@ func (w *c08World) cleanup() {
 	}
 }
 
-func c08ConvFn(op c08Op) func(int) (int, error) {
+func (w *c08World) convFn(op c08Op) func(int) (int, error) {
 	add, sm, sr, em, er := op.Add, op.Sm, op.Sr, op.Em, op.Er
 	return func(v int) (int, error) {
 		if sm != 0 && v%sm == sr {
@@ -108,13 +177,15 @@ func c08ConvFn(op c08Op) func(int) (int, error) {
 			return 0, fmt.Errorf("nothing here: %w", schema.ErrNoValue)
 		}
 		if em != 0 && v%em == er {
-			return v + add, &c08Error{id: v + add}
+			return v + add, w.errs.mk(v + add)
 		}
 		return v + add, nil
 	}
 }
 
 const c08OpTimeout = 10 * time.Second
+
+const c08ConcMaxItems = 200000
 
 // c08Exec runs one operation on the real code. status: "" | "hang" | "panic:<v>" | "foreign-error:<v>".
 // For constructors, made = the new readers in the order the oracle numbers them.
@@ -133,7 +204,7 @@ func (w *c08World) exec(op *c08Op) (made []*schema.StreamReader[int], status str
 		}
 	case "conv":
 		run = func() {
-			made = []*schema.StreamReader[int]{schema.StreamReaderWithConvert(w.readers[op.R], c08ConvFn(*op))}
+			made = []*schema.StreamReader[int]{schema.StreamReaderWithConvert(w.readers[op.R], w.convFn(*op))}
 		}
 	case "copy":
 		run = func() { made = w.readers[op.R].Copy(op.N) }
@@ -149,7 +220,7 @@ func (w *c08World) exec(op *c08Op) (made []*schema.StreamReader[int], status str
 		run = func() {
 			var err error
 			if op.E != 0 {
-				err = &c08Error{id: op.E}
+				err = w.errs.mk(op.E)
 			}
 			op.Closed = w.writers[op.P].Send(op.C, err)
 		}
@@ -159,15 +230,16 @@ func (w *c08World) exec(op *c08Op) (made []*schema.StreamReader[int], status str
 		run = func() {
 			v, err := w.readers[op.R].Recv()
 			op.C, op.E, op.Eof = v, 0, false
-			var ce *c08Error
 			switch {
 			case err == nil:
 			case err == io.EOF:
 				op.Eof, op.C = true, 0
-			case errors.As(err, &ce):
-				op.E = ce.id
 			default:
-				status = "foreign-error:" + err.Error()
+				id, ok := w.errs.id(err)
+				if !ok {
+					status = "foreign-error:" + err.Error()
+				}
+				op.E = id
 			}
 		}
 	case "close":
@@ -272,6 +344,9 @@ func c08Obs(op c08Op) any {
 		if op.Eof {
 			return "eof"
 		}
+		if op.E != 0 {
+			return []any{op.C, op.E, "error item, " + c08ErrKind(op.E)}
+		}
 		return []int{op.C, op.E}
 	case "send":
 		return map[string]bool{"closed": op.Closed}
@@ -343,7 +418,7 @@ func (s *c08Seq) step(op c08Op) (bool, error) {
 			return false, nil
 		}
 		if strings.HasPrefix(rep.Why, "mismatch:") {
-			s.ctx.Res.Disagree(vh.Disagreement{Signature: fmt.Sprintf("C08:%s:kind=%s", strings.TrimPrefix(rep.Why, "mismatch:"), kind),
+			s.ctx.Res.Disagree(vh.Disagreement{Signature: fmt.Sprintf("C08:%s:kind=%s%s", strings.TrimPrefix(rep.Why, "mismatch:"), kind, c08EOFLikeTag(op, rep)),
 				What:  fmt.Sprintf("op #%d %s on a %s: implementation returned %v, the model allows %s", rep.At, op.K, kind, c08Obs(op), c08AllowedFor(op, rep)),
 				Case:  s.c, Model: map[string]any{"why": rep.Why, "allowed": rep.Allowed}, Impl: c08Obs(op)})
 			s.bad = true
@@ -356,7 +431,36 @@ func (s *c08Seq) step(op c08Op) (bool, error) {
 	}
 	s.track(&op, rep.Created)
 	s.st = rep
+	if op.E != 0 {
+		switch {
+		case op.K == "send" && !op.Closed:
+			s.stats["send-err="+c08ErrKind(op.E)]++
+		case op.K == "recv":
+			s.stats["recv-err="+c08ErrKind(op.E)+"@"+kind]++
+		}
+	}
 	return true, nil
+}
+
+// c08EOFLikeTag marks a Recv mismatch in which an error item that wraps or claims io.EOF is
+// involved: the implementation returned such an item where the model expects something else
+// (e.g. the same item again), or the model expects such an item and the implementation
+// returned something else (the item was swallowed).
+func c08EOFLikeTag(op c08Op, rep *c08Reply) string {
+	if op.K != "recv" {
+		return ""
+	}
+	like := !op.Eof && op.E != 0 && op.E%3 != 0
+	for _, a := range rep.Allowed {
+		var it []int
+		if json.Unmarshal(a, &it) == nil && len(it) == 2 && it[1] != 0 && it[1]%3 != 0 {
+			like = true
+		}
+	}
+	if like {
+		return ":eof-like-error-item"
+	}
+	return ""
 }
 
 func c08AllowedFor(op c08Op, rep *c08Reply) string {
@@ -442,13 +546,28 @@ func (s *c08Seq) readers(enabledOnly bool) [][]int {
 	return out
 }
 
+// nextItem: the next (chunk, error id) for pipe p; chunks are distinct and increasing per pipe.
+// 20% are error items; their kind (see c08ErrKind) is drawn here — 30% opaque, 40% wrapping
+// io.EOF, 30% claiming io.EOF by an Is method — and the value is advanced (by at most 2) to the
+// next one that carries that kind.  Error items are followed by further items like any other.
 func (s *c08Seq) nextItem(p int) (int, int) {
 	s.seq[p]++
 	v := (p+1)*1000 + s.seq[p]
-	if s.ctx.Rng.Chance(15) {
-		return v, v
+	if !s.ctx.Rng.Chance(20) {
+		return v, 0
 	}
-	return v, 0
+	kind := 1
+	switch c := s.ctx.Rng.Intn(100); {
+	case c < 30:
+		kind = 0
+	case c >= 70:
+		kind = 2
+	}
+	for v%3 != kind {
+		s.seq[p]++
+		v++
+	}
+	return v, v
 }
 
 func (s *c08Seq) genConstructor() (c08Op, bool) {
@@ -724,7 +843,7 @@ func (s *c08Seq) finish(err error) error {
 	// coverage accounting
 	shape := c08Shape(s.c.Ops)
 	for k, v := range s.stats {
-		if strings.HasPrefix(k, "op=") {
+		if strings.HasPrefix(k, "op=") || strings.HasPrefix(k, "send-err=") || strings.HasPrefix(k, "recv-err=") {
 			for i := 0; i < v; i++ {
 				s.ctx.Res.Dist(k)
 			}
@@ -928,7 +1047,7 @@ func c08RunConc(ctx *vh.Ctx, replay *c08Case) error {
 				for _, it := range its {
 					var err error
 					if it[1] != 0 {
-						err = &c08Error{id: it[1]}
+						err = s.w.errs.mk(it[1])
 					}
 					if sw.Send(it[0], err) {
 						told = true
@@ -960,19 +1079,26 @@ func c08RunConc(ctx *vh.Ctx, replay *c08Case) error {
 				for i := 0; k < 0 || i < k; i++ {
 					v, err := sr.Recv()
 					op := c08Op{K: "recv", R: id, C: v}
-					var ce *c08Error
 					switch {
 					case err == nil:
 					case err == io.EOF:
 						op.Eof, op.C = true, 0
-					case errors.As(err, &ce):
-						op.E = ce.id
 					default:
-						res.status = "foreign-error:" + err.Error()
-						return
+						eid, ok := s.w.errs.id(err)
+						if !ok {
+							res.status = "foreign-error:" + err.Error()
+							return
+						}
+						op.E = eid
 					}
 					res.got = append(res.got, op)
 					if op.Eof {
+						return
+					}
+					if len(res.got) > c08ConcMaxItems {
+						// far more than any tree of ≤ 14 constructors over ≤ 8 short sources can deliver:
+						// the reader does not reach the end of its stream
+						res.status = fmt.Sprintf("runaway:reader %d received %d items without reaching end-of-stream, the last one %v", id, len(res.got), c08Obs(op))
 						return
 					}
 				}
@@ -1036,7 +1162,7 @@ func c08RunConc(ctx *vh.Ctx, replay *c08Case) error {
 			return fmt.Errorf("C08 harness/model error in concurrent validation at op %d: %s", rep.At, rep.Why)
 		}
 		bad := ops[rep.At]
-		ctx.Res.Disagree(vh.Disagreement{Signature: fmt.Sprintf("C08:%s:kind=%s:concurrent", strings.TrimPrefix(rep.Why, "mismatch:"), c08KindOf(s.st, bad.R)),
+		ctx.Res.Disagree(vh.Disagreement{Signature: fmt.Sprintf("C08:%s:kind=%s%s:concurrent", strings.TrimPrefix(rep.Why, "mismatch:"), c08KindOf(s.st, bad.R), c08EOFLikeTag(bad, rep)),
 			What:  fmt.Sprintf("concurrent run: reader %d received %v where the model allows %s", bad.R, c08Obs(bad), c08Allowed(rep)),
 			Case:  full, Model: map[string]any{"why": rep.Why, "allowed": rep.Allowed, "at": rep.At}, Impl: c08Obs(bad)})
 		return nil
@@ -1063,7 +1189,7 @@ func c08RunConc(ctx *vh.Ctx, replay *c08Case) error {
 // ---- entry ----
 
 func runC08(ctx *vh.Ctx) error {
-	ctx.Res.Rule = "random op sequences (Pipe/FromArray/WithConvert/Copy/Merge constructors interleaved with Send, writer Close, Recv, reader Close; only ops the model says cannot block are issued) + tear-down that checks close/EOF propagation; plus concurrent runs of random trees (goroutine per end). non-trivial = the tree has a copy, merge or convert and at least one Recv; distinct by constructor skeleton and trace length"
+	ctx.Res.Rule = "random op sequences (Pipe/FromArray/WithConvert/Copy/Merge constructors interleaved with Send, writer Close, Recv, reader Close; 20% of the items sent are error items at any position, of three kinds: opaque / wrapping io.EOF with %w / a type whose Is method claims io.EOF, all of them ordinary elements for the model; only ops the model says cannot block are issued) + tear-down that checks close/EOF propagation; plus concurrent runs of random trees (goroutine per end). non-trivial = the tree has a copy, merge or convert and at least one Recv; distinct by constructor skeleton and trace length"
 	if ctx.Replay != nil {
 		var c c08Case
 		if err := json.Unmarshal(ctx.Replay, &c); err != nil {
